@@ -10,6 +10,8 @@ from xmc import explore, histcheck
 PROP = "C07"
 
 NESTED_H = [
+    "H.add_node(2, pos=(0.5, [1, 2]), label='A')",
+    "H.add_edge([1, 3], t=(1, {'k': [2]}), s={'x', 'y'})",
     "H.add_node(1, tags=['a'])",
     "H.add_edge([1, 2], meta={'k': [1]})",
     "H.add_edges_from([([2, 3], 4, {'l': [1, {'z': 2}]})])",
@@ -17,6 +19,8 @@ NESTED_H = [
     "H.set_edge_attributes({0: {'l': [1, 2]}})",
 ]
 NESTED_D = [
+    "H.add_node(2, pos=(0.5, [1, 2]), label='A')",
+    "H.add_edge(([1], [3]), t=(1, {'k': [2]}), s={'x', 'y'})",
     "H.add_node(1, tags=['a'])",
     "H.add_edge(([1], [2]), meta={'k': [1]})",
     "H.add_edges_from([(([2], [3]), 4, {'l': [1, {'z': 2}]})])",
@@ -24,6 +28,8 @@ NESTED_D = [
     "H.set_edge_attributes({0: {'l': [1, 2]}})",
 ]
 NESTED_S = [
+    "H.add_node(2, pos=(0.5, [1, 2]), label='A')",
+    "H.add_simplex([1, 3], t=(1, {'k': [2]}), s={'x', 'y'})",
     "H.add_node(1, tags=['a'])",
     "H.add_simplex([1, 2], meta={'k': [1]})",
     "H.add_simplices_from([([2, 3, 4], 4, {'l': [1, {'z': 2}]})])",
@@ -89,6 +95,9 @@ def _mutate_nested(obj):
         elif isinstance(v, set):
             v.add("MUT")
             n += 1
+        elif isinstance(v, tuple):
+            for x in v:
+                walk(x, depth + 1)
 
     for i in list(obj.nodes):
         for v in list(obj.nodes[i].values()):
